@@ -189,6 +189,15 @@ func legC19(e *Engine) []Violation {
 		for k := int64(0); k <= total; k++ {
 			atomic.AddInt64(&points, 1)
 			ans, _, _, loadErr := runWith(k)
+			for _, a := range ans {
+				if a == "hang" || strings.HasSuffix(a, " hang") {
+					// believe a hang only if it persists with six times the patience
+					atomic.StoreInt64(&slowFactor, 6)
+					ans, _, _, loadErr = runWith(k)
+					atomic.StoreInt64(&slowFactor, 1)
+					break
+				}
+			}
 			if k >= loadReads {
 				atomic.AddInt64(&inCall, 1)
 			}
@@ -428,6 +437,12 @@ func legC12(e *Engine) []Violation {
 				var n int64
 				var err error
 				res := guard(20*time.Second, func() string { n, err = wl.run(lw); return "" })
+				if res == "hang" {
+					atomic.StoreInt64(&slowFactor, 6)
+					lw = &limitWriter{limit: k, closeAt: -1, ch: make(chan struct{})}
+					res = guard(20*time.Second, func() string { n, err = wl.run(lw); return "" })
+					atomic.StoreInt64(&slowFactor, 1)
+				}
 				if res != "" || err == nil {
 					add(Violation{Prop: "C12", CaseID: c.ID, Kind: "fault", Case: c,
 						Detail: fmt.Sprintf("%s: writer fails after %d of %d bytes -> %s n=%d err=%v (silent success)", wl.name, k, total, res, n, err),
